@@ -209,7 +209,9 @@ class AutoQKHyperModel(HyperModel):
       # linear quantizers
       field_name = "linear"
       kq = self.quantization_config["linear"]
-      index = 0
+      # a linear activation is an activation: its limit is the last entry
+      # (an entry shared with dense/conv layers starts with the kernel limit)
+      index = -1
       q_list = list(kq.keys())
       q_dict = kq
     elif "kernel" in head:
